@@ -152,7 +152,21 @@ def subst(t, f, memo):
             rep = f(at)
             if rep is None:
                 na = tuple(subst(x, f, memo) if isinstance(x, tuple) else x for x in at)
-                rep = atom(na)
+                # re-normalise: with the caller's values a comparison may now be decided, an exact
+                # quotient may divide, a negation may cancel
+                tag = na[0]
+                if na == at:
+                    rep = atom(at)
+                elif tag == 'cmp':
+                    rep = mk_icmp(na[1], na[2], na[3])
+                elif tag == 'not':
+                    rep = mk_not(na[1])
+                elif tag == 'divx':
+                    rep = lin_div_exact(na[1], na[2])
+                    if rep is None:
+                        rep = atom(na)
+                else:
+                    rep = atom(na)
             acc = lin_add(acc, lin_scale(rep, c))
         r = acc
     else:
@@ -1263,6 +1277,10 @@ class Engine(object):
                 e2.addr = subst(ev.addr, rep, memo)
                 if ev.field is not None:
                     self.field_tag[e2.addr] = ev.field
+                else:
+                    # a store through a pointer parameter (std::swap of two words): the caller
+                    # knows which word the address is
+                    e2.field = self.field_tag.get(e2.addr)
             if ev.val is not None:
                 e2.val = subst(ev.val, rep, memo)
             if ev.cond is not None:
